@@ -783,10 +783,16 @@ pub fn build_pool(shipped_text: String, shipped_table: Vec<Entry>, n_rendered: u
         if !(style.dollar_line && (style.at_line || style.stale_expiry) && (style.hash_line || style.hash_line_first)) {
             strict = false;
         }
-        // by rank, not drawn (only matters where the image has trailing comments at all)
-        style.comment_style = ((i / 2) % 4) as u8;
-        if style.unicode_blanks {
-            style.comment_style = 0; // those images depend on the `# 1 Mon YYYY` form
+        // By rank, not drawn. The file's own header says that the comment on each data line
+        // "shows the representation of the corresponding initial epoch in the usual
+        // day-month-year format": a comment that names another day, or takes another form, is a
+        // liberty, and a self-validating loader may refuse such a file (REF121). It is the one
+        // liberty these images take (nothing else uses rank 0 mod 8): judged by O1 only — a
+        // refusal is not a wrong answer, a table moved to the day the comment names is.
+        if i % 8 == 0 {
+            style.comment_style = 1 + ((i / 8) % 3) as u8;
+            style.trailing_comment = true;
+            strict = false;
         }
         let text = render(&table, &style, &mut r);
         let mut text = text;
